@@ -45,6 +45,7 @@ type c13sim struct {
 	pHeld     bool  // harness's view: P's lock is held and not expired
 	grantedAt time.Time
 	ttl       time.Duration
+	staleDone, skipThird, newPrimaryFirst bool
 	dynamic   bool
 	svc       *SimLease
 }
@@ -244,6 +245,14 @@ func runC13(r *Run) {
 		if cs.pHeld && time.Since(cs.grantedAt) > cs.ttl+300*time.Millisecond {
 			cs.pHeld = false
 		}
+		if cs.dynamic && !cs.held && !cs.pHeld && !cs.staleDone && t.Chance(1, 6) {
+			cs.staleLockBehindPrimary(t)
+			r.State("%v/stale-lock-behind-primary", cs.wal)
+			if !r.Check(!cs.p.Exited && !cs.rep.Exited && !cs.r2.Exited, "c13.exit", "a node stopped (p=%v r=%v r2=%v)", cs.p.Exited, cs.rep.Exited, cs.r2.Exited) {
+				return
+			}
+			continue
+		}
 		kinds := []int{3, 6, 4, 3, 2, 3, 2, 2, 0, 0} // acquire, forwarded tx, local tx on P, release, let it expire, /tx by a stranger, repeated /halt, checkpoint on P, change of primary, acquire and its retry behind a local writer
 		if cs.held {
 			kinds[0] = 0
@@ -330,6 +339,10 @@ func (cs *c13sim) acquire(t *Tape) {
 		}
 	}
 	before := cs.pdb().Pos()
+	// a replica that is ahead of (or on another history than) the primary it
+	// follows now cannot catch up to the lock's position until it has been
+	// resnapshotted: its acquire may fail, that is not the property's subject
+	inSync := cs.rdb() != nil && cs.rdb().Pos() == before
 	lockWait := func() syscall.Errno {
 		ctx, cancel := context.WithTimeout(context.Background(), 3*time.Second)
 		defer cancel()
@@ -366,6 +379,11 @@ func (cs *c13sim) acquire(t *Tape) {
 		if cs.pHeld {
 			r.Count("c13.acquire.refused-while-held")
 			return // an expired-on-R / still-held-on-P lock from an earlier step blocks it: legal
+		}
+		if !inSync {
+			r.Count("c13.acquire.refused-not-in-sync")
+			time.Sleep(2 * time.Second) // the lock the primary granted for nothing runs out
+			return
 		}
 		r.Failf("c13.acquire", "the replica cannot take the halt lock although nobody holds it: %v", e)
 		return
@@ -454,6 +472,9 @@ func (cs *c13sim) forwarded(t *Tape) {
 			r.Failf("c13.former-holder-published", "the primary accepted %s from a replica whose halt lock was no longer granted when the transaction began", desc)
 			return
 		}
+		if cs.skipThird {
+			return // the other replica is cut off on purpose
+		}
 		if r.Check(waitPos(cs.r2, cs.name, pAfter, 10*time.Second), "c13.third-replica", "the other replica did not reach the forwarded transaction %s", pAfter) {
 			im, _ := ReadDiskImage(cs.r2.Store.DBPath(cs.name))
 			if d := DiffImages(im, cs.ref); d != "" {
@@ -478,6 +499,15 @@ func (cs *c13sim) forwarded(t *Tape) {
 	// the halt lock goes away; the application here gives the lock up.
 	if jb, err := os.ReadFile(cs.rdb().JournalPath()); err == nil && len(jb) >= 8 && bytes.Equal(jb[:8], journalMagic) && cs.held {
 		r.Count("c13.forwarded.refused-hot-journal")
+		if !cs.pHeld && cs.dynamic && (cs.newPrimaryFirst || t.Chance(1, 2)) {
+			// The lock went with the primary that granted it. Before the
+			// application gives it up, the new primary's stream reaches the
+			// replica (a snapshot, if the new primary is behind): it must not be
+			// applied around the interrupted transaction's journal.
+			if waitPos(cs.rep, cs.name, cs.pdb().Pos(), 3*time.Second) {
+				r.Count("c13.forwarded.refused-hot-journal.new-primary-first")
+			}
+		}
 		cs.release(t)
 		jb, _ = os.ReadFile(cs.rdb().JournalPath())
 		r.Check(len(jb) < 8 || !bytes.Equal(jb[:8], journalMagic), "c13.refused-changed", "after the refused commit and the release of the halt lock the replica still has a hot journal")
@@ -702,6 +732,75 @@ func (cs *c13sim) stranger(t *Tape) {
 		cs.pHeld = cs.pHeld && false
 	}
 	r.Count("c13.stranger.checked")
+}
+
+// staleLockBehindPrimary: the replica holds the lock and has forwarded a
+// transaction the other replica never received (it is cut off); then the
+// primary goes and the other replica - one transaction behind - takes over. The
+// holder's next transaction is refused by the new primary and leaves its
+// journal; the new primary's snapshot of the earlier position reaches the
+// holder before the application gives the lock up. Everybody must end on the
+// new primary's history, nobody stops.
+func (cs *c13sim) staleLockBehindPrimary(t *Tape) {
+	r := cs.r
+	cs.staleDone = true
+	cs.acquire(t)
+	if r.Failed() || !cs.held {
+		return
+	}
+	cs.net.Partition(cs.p.ID, cs.r2.ID, true)
+	cs.net.Partition(cs.rep.ID, cs.r2.ID, true)
+	for i := 0; i < 4 && !r.Failed(); i++ {
+		before := cs.pdb().Pos()
+		cs.skipThird = true
+		cs.forwarded(t)
+		cs.skipThird = false
+		if cs.pdb().Pos() != before {
+			break
+		}
+		if !cs.held {
+			break
+		}
+	}
+	if r.Failed() || !cs.held {
+		cs.net.HealAll()
+		return
+	}
+	cs.changePrimary(t)
+	cs.net.HealAll()
+	if r.Failed() {
+		return
+	}
+	r.Count("c13.stale-lock.primary-changed")
+	cs.newPrimaryFirst = true
+	cs.forwarded(t) // refused by the new primary; the hot-journal branch releases
+	cs.newPrimaryFirst = false
+	if r.Failed() {
+		return
+	}
+	if cs.held {
+		cs.release(t)
+	}
+	cs.localTx(t)
+	if r.Failed() {
+		return
+	}
+	for _, n := range []*Node{cs.rep, cs.r2} {
+		if !r.Check(!n.Exited, "c13.exit", "%s stopped (Exit %d) after the primary it held a halt lock from was replaced by one that was behind", n.Name, n.ExitCode) {
+			return
+		}
+		if !r.Check(waitPos(n, cs.name, cs.pdb().Pos(), 15*time.Second), "c13.follow", "%s did not reach the new primary's position %s (it is at %s)", n.Name, cs.pdb().Pos(), posOf(n, cs.name)) {
+			return
+		}
+		im, err := ReadDiskImage(n.Store.DBPath(cs.name))
+		if err == nil {
+			if d := DiffImages(im.LogicalCut(), cs.ref); d != "" {
+				r.Failf("c13.identical", "%s after the change to a primary that was behind: %s", n.Name, d)
+				return
+			}
+		}
+	}
+	r.Count("c13.stale-lock.checked")
 }
 
 // contendedAcquire: a /halt request and its retry (same id: an interrupted call
